@@ -109,6 +109,13 @@ def split_format(lit_text):
                 continue
             j = s.index('}', i)
             spec = s[i + 1:j]
+            if spec.endswith(':?'):
+                if cur:
+                    pieces.append(('lit', cur))
+                    cur = ''
+                pieces.append(('dbg', spec[:-2]))
+                i = j + 1
+                continue
             if ':' in spec:
                 return None
             if cur:
@@ -767,6 +774,18 @@ class World:
                 for kind, val in pieces:
                     if kind == 'lit':
                         parts.append(rust_str(val))
+                    elif kind == 'dbg':
+                        if val == '':
+                            if pos_i >= len(args):
+                                ok = False
+                                break
+                            a = args[pos_i]
+                            pos_i += 1
+                        elif val.isdigit():
+                            a = args[int(val)]
+                        else:
+                            a = val
+                        parts.append('crate::std_ext::DebugOf(&(' + a + '))')
                     else:
                         if val == '':
                             if pos_i >= len(args):
